@@ -37,6 +37,12 @@ func init() {
 		Race:    true,
 		Workers: 4,
 		Run:     runC20,
+		Finish: func(a *core.Agg) string {
+			if a.Counters["cooperation_timeout_unexplained"] > 0 {
+				return "a nested / cooperating application did not finish within the watchdog and the goroutine dump shows no lock wait inside the library"
+			}
+			return ""
+		},
 	})
 }
 
